@@ -12,6 +12,8 @@ from common import c_Z, c_bool, c_list, c_nat, c_opt
 
 from golem.core.dag.graph_utils import (graph_has_cycle, ordered_subnodes_hierarchy, node_depth,
                                         distance_to_primary_level, distance_to_root_level)
+from golem.core.dag.graph_delegate import GraphDelegate
+from golem.core.dag.linked_graph import LinkedGraph
 from golem.core.optimisers.graph import OptGraph, OptNode
 
 REQ = ['Graph.QueriesSpec', 'Graph.Queries']
@@ -38,19 +40,79 @@ def _alarm(signum, frame):
     raise Hang()
 
 
-def build(par):
+# ---- user subclasses: the queries are defined on the stored structure (nodes_from, identity, uid), so
+# ---- a graph class that overrides root_node or a node class with its own __len__/__bool__/__eq__ must
+# ---- get the same answers as the stock classes
+class FirstSinkGraph(LinkedGraph):
+    """root_node narrowed to the sink listed first"""
+    @property
+    def root_node(self):
+        roots = self.root_nodes()
+        return roots[0] if roots else None
+
+
+class StrictRootGraph(LinkedGraph):
+    """FEDOT style: asking for THE root node of a graph with several sinks is an error"""
+    @property
+    def root_node(self):
+        roots = self.root_nodes()
+        if not roots:
+            return None
+        if len(roots) > 1:
+            raise ValueError('More than 1 root_nodes in graph')
+        return roots[0]
+
+
+class JoinNode(OptNode):
+    """len(node) = number of inputs: nodes without parents are falsy"""
+    def __len__(self):
+        return len(self.nodes_from)
+
+
+class LeafFalseNode(OptNode):
+    """__bool__: only nodes that have inputs are truthy"""
+    def __bool__(self):
+        return bool(self.nodes_from)
+
+
+class KeyEqNode(OptNode):
+    """value-based equality on a key that is unique inside a graph (consistent __hash__)"""
+    def __eq__(self, other):
+        return isinstance(other, KeyEqNode) and self.content['name'] == other.content['name']
+
+    def __hash__(self):
+        return hash(self.content['name'])
+
+
+NODE_KINDS = {'plain': OptNode, 'len': JoinNode, 'leaf-false': LeafFalseNode, 'key-eq': KeyEqNode}
+GRAPH_KINDS = ('opt', 'first-sink', 'strict-root', 'delegate-first-sink', 'delegate-strict-root')
+STOCK = ('plain', 'opt')
+
+
+def build(par, flavour=STOCK):
     """real graph whose i-th listed node has the parents par[i] (indices), in that order"""
-    nodes = [OptNode('n%d' % i) for i in range(len(par))]
+    node_cls = NODE_KINDS[flavour[0]]
+    nodes = [node_cls('n%d' % i) for i in range(len(par))]
     for i, ps in enumerate(par):
         nodes[i].nodes_from = [nodes[p] for p in ps]
-    g = OptGraph()
+    gk = flavour[1]
+    if gk == 'opt':
+        g = OptGraph()
+    elif gk == 'first-sink':
+        g = FirstSinkGraph()
+    elif gk == 'strict-root':
+        g = StrictRootGraph()
+    elif gk == 'delegate-first-sink':
+        g = GraphDelegate(delegate_cls=FirstSinkGraph)
+    else:
+        g = GraphDelegate(delegate_cls=StrictRootGraph)
     g.nodes = list(nodes)
     return g, nodes
 
 
-def observe(par, queries):
+def observe(par, queries, flavour=STOCK):
     """all observations on one graph; raises Hang when the watchdog fires"""
-    g, nodes = build(par)
+    g, nodes = build(par, flavour)
     idx = {id(nd): i for i, nd in enumerate(nodes)}
     ix = lambda nd: idx[id(nd)]
     odd = []     # unexpected exception kinds (reported as disagreements)
@@ -175,6 +237,10 @@ def all_dags(n):
             yield from rec(i + 1, par)
             par.pop()
     yield from rec(0, [])
+
+
+def _acyclic(par):
+    return path_prefixes(par) is not None
 
 
 def random_graph(r):
@@ -577,13 +643,17 @@ def evaluate(ctx, group, items):
     """items: list of (par, queries).  Observes, evaluates in Coq, books the results."""
     cases, meta = [], []
     hangs = 0
-    for par, queries in items:
+    for item in items:
+        par, queries = item[0], item[1]
+        flavour = tuple(item[2]) if len(item) > 2 and item[2] else STOCK
         case = {'par': par, 'queries': queries}
+        if flavour != STOCK:
+            case['flavour'] = list(flavour)
         if hangs >= 3:      # every hang costs the watchdog time: three are enough to report
             ctx.notes.append('group %s abandoned after 3 hangs' % group)
             break
         try:
-            o, odd = observe(par, queries)
+            o, odd = observe(par, queries, flavour)
         except Hang:
             hangs += 1
             ctx.count(group, key=repr(par), nontrivial=True, n=len(par), hang=True)
@@ -595,7 +665,8 @@ def evaluate(ctx, group, items):
             continue
         except Exception as ex:
             ctx.count(group, key=repr(par), nontrivial=True, n=len(par))
-            ctx.violate(group, case, 'a structural query raised %s: %s' % (type(ex).__name__, ex))
+            ctx.violate(group, case, 'a structural query raised %s: %s%s' % (
+                type(ex).__name__, ex, '' if flavour == STOCK else ' [node class %s, graph class %s]' % flavour))
             continue
         case['observed'] = o
         for what in odd:
@@ -605,11 +676,13 @@ def evaluate(ctx, group, items):
     res = ctx.coq_cases(group, REQ, FN, cases, K, shard=600, case_ty='dg * obs')
     for (case, o), flags in zip(meta, res):
         par = case['par']
-        ctx.count(group, key=repr(par), nontrivial=(len(par) >= 2 and any(par)), **facts(par, o))
+        fl = tuple(case.get('flavour', STOCK))
+        extra = {} if fl == STOCK else {'node_class': fl[0], 'graph_class': fl[1]}
+        ctx.count(group, key=repr((par, fl)), nontrivial=(len(par) >= 2 and any(par)), **facts(par, o), **extra)
         ag, ho = flags[:len(AGREE)], flags[len(AGREE):]
         for name, ok in zip(HOLDS, ho):
             if not ok:
-                ctx.violate(group, case, name)
+                ctx.violate(group, case, name + ('' if fl == STOCK else ' [node class %s, graph class %s]' % fl))
         for name, ok in zip(AGREE, ag):
             if not ok:
                 ctx.disagree(group, case, 'model and implementation differ on ' + name)
@@ -623,7 +696,9 @@ def run(ctx):
                 'with shuffled parent lists (thorough); random: '
                 'structured digraphs on 1..12 nodes (DAGs of several densities, DAG + back edge, self-loops, '
                 'forests, chains, layered, disjoint unions) under random listing order and parent order; every node '
-                'is a query argument; distinct = distinct parent-list structure; non-trivial = >= 2 nodes and >= 1 edge')
+                'is a query argument; the same queries on graphs of USER SUBCLASSES (LinkedGraph subclasses overriding root_node, '
+                'directly and as GraphDelegate delegate_cls; node subclasses with __len__, __bool__, key-based __eq__/__hash__); '
+                'LARGE graphs of 15..500 nodes in three node orders and three builders; distinct = distinct parent-list structure; non-trivial = >= 2 nodes and >= 1 edge')
     ctx.trusted_extra = [
         'node identity is modelled by the position in graph.nodes (GOLEM nodes compare by identity and carry '
         'distinct uids); parent lists are UniqueList objects, so duplicate-free',
@@ -661,6 +736,21 @@ def run(ctx):
         items = [(par, default_queries(par, r, lean=True)) for par in all_dags(5)]
         evaluate(ctx, 'dags5', items)
         ctx.set_exhaustive('dags5', True)
+    # ---- user subclasses of the graph and node classes (same structure, same answers)
+    flavours = [(nk, gk) for nk in NODE_KINDS for gk in GRAPH_KINDS if (nk, gk) != STOCK]
+    items = []
+    for par in small:                      # every acyclic ordered digraph on <= 3 nodes under every flavour
+        if len(par) >= 2 and _acyclic(par):
+            items.extend((par, default_queries(par, r, lean=True), fl) for fl in flavours)
+    k = 0
+    for n in range(0, 4):                  # every digraph on <= 3 nodes under one flavour, rotating
+        for par in all_digraphs(n):
+            items.append((par, default_queries(par, r, lean=True), flavours[k % len(flavours)]))
+            k += 1
+    for _ in range(ctx.budget(400, 3000)):
+        par, kind = random_graph(r)
+        items.append((par, default_queries(par, r), r.choice(flavours)))
+    evaluate(ctx, 'subclasses', items)
     # ---- large graphs
     meta = evaluate_big(ctx, 'large', big_specs(ctx))
     for case, o, par in meta[:1]:
@@ -701,7 +791,7 @@ def replay(ctx, payload):
         return
     if 'par' not in case:
         return
-    item = ([list(ps) for ps in case['par']], [list(q) for q in case.get('queries', [])])
+    item = ([list(ps) for ps in case['par']], [list(q) for q in case.get('queries', [])], case.get('flavour'))
     if deferred:
         # corpus files are evaluated together at the start of run() (one coqc instead of one per file)
         ctx.__dict__.setdefault('c12_corpus', []).append(item)
